@@ -85,7 +85,8 @@ func H_C03_NoLeak(v *sym.V) {
 // followed by a token byte (the solver picks the marker and the token).
 func H_C03_MarkerLead(v *sym.V) {
 	g := newG(v, sym.REGNN)
-	g.ClsUnsafe = sym.MARKTOK
+	// a lone marker next to a token, or a balanced pair of markers between two tokens
+	g.ClsUnsafe = []sym.Class{sym.MARKTOK, sym.TOKMARK2}[v.Choice("unsafecls", 2)]
 	b := g.BuildTiered("e", v.Param("D", 2),
 		[]gen.Kind{gen.LStd, gen.LNewfUnsafe, gen.LUserPlain, gen.LUserFmt, gen.LHandledMsg},
 		[]gen.Kind{gen.WHint, gen.WDetail, gen.WWrapf, gen.WFmtPrefix, gen.WPkgMsg, gen.WTags, gen.WMark},
